@@ -16,6 +16,7 @@ import inspect
 import itertools
 import json
 import os
+import time
 import warnings
 from ipaddress import IPv4Address
 
@@ -177,11 +178,7 @@ def inst_bits(obj, member):
     return (obj._style != "falsy", True, member in obj._ov)
 
 
-class StubFeatures:
-    """Features instance with scripted states (subclass created lazily to avoid import at load)."""
-
-
-def make_features(states):
+def make_features(states, log=None, proto=None, falsy=False):
     from pyatv import interface
     from pyatv.const import FeatureState
 
@@ -190,7 +187,12 @@ def make_features(states):
             self.states = states
 
         def get_feature(self, feature_name):
+            if log is not None:
+                log.append((proto, "Features", feature_name.name))
             return interface.FeatureInfo(self.states.get(feature_name.name, FeatureState.Unsupported))
+
+        def __bool__(self):
+            return not falsy
     return _F()
 
 
@@ -320,7 +322,6 @@ async def observe_rows():
             for scen in ("all", "none", "own-missing", "own-only"):
                 log = []
                 states = {}
-                allf = [v[0] for v in interface._ALL_FEATURES.values()]
                 from pyatv.const import FeatureName
                 names = [f.name for f in FeatureName]
                 own = None
@@ -378,8 +379,8 @@ async def observe_rows():
     return rows
 
 
-async def collect():
-    """Everything the generated files are made of."""
+async def collect(need_rows=True):
+    """Everything the generated files are made of (need_rows=False: without the facade table, for C13)."""
     quiet()
     from pyatv import interface
     from pyatv.const import FeatureName
@@ -395,7 +396,7 @@ async def collect():
     t["facade_ifaces"] = keys
     t["relayer_prios"] = {k.__name__: [p.name for p in v._priorities] for k, v in atv._interfaces.items()}
     t["members"] = {i: public_members(iface_cls(i)) for i in RELAYED}
-    t["rows"] = await observe_rows()
+    t["rows"] = await observe_rows() if need_rows else []
     # real protocol classes
     sds, cleanup = await real_setups()
     try:
@@ -691,13 +692,14 @@ def relayer_cases(rng, n):
             style = rng.choice(["sub", "sub", "sub", "duck", "falsy"])
             ov = [m for m in ("app_list", "launch_app") if rng.random() < 0.5]
             o = make_stub("Apps", p, ov, log, style)
+            before = [x.name for x in rel._interfaces]
             try:
                 rel.register(o, P(p))
                 ok = True
             except RuntimeError:
                 ok = False
-            if ok != (p in prios):
-                out.append({"kind": "register", "prios": prios, "proto": p, "ok": ok})
+            out.append({"kind": "register", "prios": prios, "proto": p, "before": before,
+                        "after": [x.name for x in rel._interfaces] if ok else None})
             if ok:
                 if p not in regd:
                     regd.append(p)
@@ -722,6 +724,9 @@ def relayer_cases(rng, n):
                 take = []
         if [p.name for p in rel._takeover_protocol] != take:
             out.append({"kind": "takeover-state", "prios": prios, "take": take})
+        mp = rel.main_protocol
+        out.append({"kind": "main", "prios": prios, "take": take, "regd": [x.name for x in rel._interfaces],
+                    "main": mp.name if mp else None})
         a = rng.random()
         arg = None if a < 0.5 else ([] if a < 0.6 else rng.sample(PROTOS, rng.randint(1, 5)))
         try:
@@ -759,6 +764,16 @@ async def drive_history(ops):
     class Unknown:  # a key that is not in FacadeAppleTV._interfaces
         pass
     probe_member = {i: public_members(iface_cls(i))[0] for i in RELAYED}
+
+    async def probe():
+        pr = {}
+        for i in RELAYED:
+            m, kind = probe_member[i]
+            del log[:]
+            exc = await invoke(getattr(atv, IACC[i]), m, kind, iface_cls(i))
+            pr[i] = [e[0] for e in log] if exc is None else exc
+        return pr
+    probes.append(await probe())       # before the first operation
     for o in ops:
         if o[0] == "T":
             keys = [iface_cls(i) if i else Unknown for i in o[2]]
@@ -774,13 +789,7 @@ async def drive_history(ops):
                 t()
             res.append("RReleased")
         states.append([holder_of(atv, i) for i in IFLIST])
-        pr = {}
-        for i in RELAYED:
-            m, kind = probe_member[i]
-            del log[:]
-            exc = await invoke(getattr(atv, IACC[i]), m, kind, iface_cls(i))
-            pr[i] = [e[0] for e in log] if exc is None else exc
-        probes.append(pr)
+        probes.append(await probe())
     return res, states, probes
 
 
@@ -790,6 +799,9 @@ def judge_history(ops, res, probes):
     holder = {i: None for i in IFLIST}
     toks = []
     used = set()
+    if any(probes[0][i] != [text_order(i)[0]] for i in RELAYED):
+        return None        # routing without any takeover is already wrong: reported by the routing cases
+    probes = probes[1:]
     for n, o in enumerate(ops):
         if o[0] == "T":
             known = [i for i in o[2] if i]
@@ -908,27 +920,28 @@ def run(ctx):
     except Exception as ex:  # noqa  fail closed
         import traceback
         ctx.tie_broken("translator", traceback.format_exc())
-        t = None
+        t = fallback_tables()      # keep searching for a failing input of the property
+    ctx.note("translator done %.1fs" % (time.time() - ctx.t0))
     ok = ctx.build_property()
+    ctx.note("build done %.1fs" % (time.time() - ctx.t0))
     if ctx.thorough:
         ctx.coqchk()
-    if t is None:
-        return
     rng = ctx.rng
     rows = t["rows"]
     members = t["members"]
     ctx.rule = ("(a) real FacadeAppleTV with recording stubs: override tables = the real one + random ones (densities "
                 "0.1..0.9, some interfaces unregistered, a few falsy / non-subclass instances), all 31 subsets of "
                 "protocols (connect order shuffled), every public member of the 9 interfaces + push updater, takeover "
-                "holder none + each protocol, random feature sets/states for the play_url gate; (b) bare Relayer "
+                "holder none + each protocol (quick tier: two random ones for the random tables), random feature sets/states for the play_url gate; (b) bare Relayer "
                 "objects with arbitrary priority lists and explicit priority argument; (c) takeover/release histories "
                 "on the real FacadeAppleTV incl. failing takeovers, unknown keys, duplicate keys, double releases. "
                 "non-trivial = some instance executed the call / some takeover succeeded; distinct by canonical case")
     # ---------------------------------------------------------------- corpus first
     for fname, d in common.load_corpus(ctx.pid):
         r = d.get("replay", d)
-        bad = vloop.run(replay_one, r, rows)
+        bad = vloop.run(replay_one, r, rows, False)
         ctx.count("corpus")
+        ctx.case(("corpus", fname), nontrivial=True)
         if bad:
             ctx.violation(bad[0], bad[1], r)
     # ---------------------------------------------------------------- (a) facade routing
@@ -948,7 +961,8 @@ def run(ctx):
                     if rng.random() < 0.6:
                         feat_sets[p].append("PlayUrl")
                     feat_states[p] = {f: rng.choice(FSTATES) if rng.random() < 0.4 else "Available" for f in set(feat_sets[p])}
-            obs = vloop.run(drive_routes, tab, order, rows, feat_sets, feat_states, [None] + PROTOS)
+            holders = [None] + (PROTOS if (ctx.thorough or tname == "real") else rng.sample(PROTOS, 2))
+            obs = vloop.run(drive_routes, tab, order, rows, feat_sets, feat_states, holders)
             for o in obs:
                 ctx.traces += 1
                 row = rows[o["row"]]
@@ -979,15 +993,32 @@ def run(ctx):
                                                        coq_protos(o["regd"]), coq_reg(o["bits"], o["regd"]), cr))
                 fmeta.append(route_replay(tab, order, o, feat_sets, feat_states))
     ctx.count("facade-cases-distinct", len(fcases))
-    run_cases_in_coq(ctx, "facade", HEADER, "nat * list proto * bool * list proto * list (proto * inst) * callres",
-                     "check_facade rows relayer_prio", fcases, lambda b: fmeta[b])
+    ctx.note("facade driven %.1fs" % (time.time() - ctx.t0))
+    if not t.get("fallback"):
+        run_cases_in_coq(ctx, "facade", HEADER, "nat * list proto * bool * list proto * list (proto * inst) * callres",
+                         "check_facade rows relayer_prio", fcases, lambda b: fmeta[b])
+    ctx.note("facade compared %.1fs" % (time.time() - ctx.t0))
     # ---------------------------------------------------------------- (b) bare relayer
     rc = relayer_cases(rng, 1500 if not ctx.thorough else 20000)
     rcases, rmeta = [], []
+    mcases, gcases = [], []
     for c in rc:
         ctx.traces += 1
+        if c["kind"] == "main":
+            mcases.append("(%s, %s, %s, %s)" % (coq_protos(c["prios"]), coq_protos(c["take"]), coq_protos(c["regd"]),
+                                             common.copt(c["main"])))
+            ctx.count("relayer:main_protocol")
+            continue
+        if c["kind"] == "register":
+            gcases.append("(%s, %s, %s, %s)" % (coq_protos(c["prios"]), coq_protos(c["before"]), c["proto"],
+                                             "None" if c["after"] is None else "Some " + coq_protos(c["after"])))
+            ctx.count("relayer:register")
+            continue
+        if c["kind"] == "second-takeover-accepted":
+            ctx.violation("C01:takeover:second-holder-accepted", "Relayer.takeover succeeded although another protocol holds the takeover", c)
+            continue
         if c["kind"] != "relay":
-            ctx.violation("C01:relayer:" + c["kind"], "Relayer %s" % c["kind"], c)
+            ctx.tie_broken("correspondence:relayer-" + c["kind"], json.dumps(c, default=repr))
             continue
         oc = coq_outcome(c["who"], c["exc"])
         ctx.case(("relayer", tuple(c["prios"]), tuple(c["take"]), tuple(c["arg"]) if c["arg"] is not None else None,
@@ -1011,6 +1042,13 @@ def run(ctx):
                 ctx.violation("C01:relayer:wrong-instance", "Relayer.relay returned %s (%s), expected %s" % (c["who"], c["exc"], exp), c)
     run_cases_in_coq(ctx, "relayer", HEADER, "list proto * list proto * option (list proto) * list (proto * inst) * outcome",
                      "check_relay", rcases, lambda b: rmeta[b])
+    mcases = list(dict.fromkeys(mcases))
+    gcases = list(dict.fromkeys(gcases))
+    run_cases_in_coq(ctx, "main", HEADER, "list proto * list proto * list proto * option proto", "check_main", mcases,
+                     lambda b: {"case": mcases[b]})
+    run_cases_in_coq(ctx, "register", HEADER, "list proto * list proto * proto * option (list proto)", "check_register",
+                     gcases, lambda b: {"case": gcases[b]})
+    ctx.note("relayer done %.1fs" % (time.time() - ctx.t0))
     # ---------------------------------------------------------------- (c) histories
     hists = [random_history(rng, 8) for _ in range(250 if not ctx.thorough else 1500)]
     if ctx.thorough:
@@ -1018,6 +1056,7 @@ def run(ctx):
         ctx.extra["exhaustive_histories"] = "all histories of <= 4 ops over takeovers by {Companion, RAOP} of [A], [B], [A,B], [B,A] (A=Audio, B=Metadata) and releases of existing tokens"
     hcases, hmeta = [], []
     hseen = set()
+    hists.sort(key=len)          # the first witness of a kind is a short one
     for ops in hists:
         res, states, probes = vloop.run(drive_history, ops)
         ctx.traces += 1
@@ -1037,6 +1076,7 @@ def run(ctx):
             hmeta.append({"ops": ops[:n + 1], "results": res[:n + 1], "holders": states[n]})
     run_cases_in_coq(ctx, "history", HEADER, "list op * list opres * list (list proto)", "check_history", hcases,
                      lambda b: hmeta[b], per=600)
+    ctx.note("histories done %.1fs" % (time.time() - ctx.t0))
     ctx.extra["gen_tables"] = {"default_ast": t["default_ast"], "power_ast": t["power_ast"], "rows": len(rows),
                                "real_override_table": t["real"]}
     ctx.trusted += [
@@ -1049,6 +1089,21 @@ def run(ctx):
         "FacadeStream.play_url is refused with NotSupportedError while the features interface does not report PlayUrl as Available (feature gate, modelled); push_updater.start/stop reach every registered instance (modelled broadcast)",
         "argument-value guards of FacadeAudio.volume/set_volume belong to C20; members are called with in-range arguments",
     ]
+
+
+def fallback_tables():
+    """Used only when the translator refuses the source: the member list of the base interfaces with
+    the kinds the property text expects, so that the oracle can still look for a failing input."""
+    from pyatv.const import FeatureName
+    t = {"members": {i: public_members(iface_cls(i)) for i in RELAYED}, "rows": [], "real": {p: {} for p in PROTOS},
+         "features": [{"name": f.name} for f in FeatureName], "fallback": True,
+         "default_ast": None, "power_ast": None}
+    for i in RELAYED:
+        for m, kind in t["members"][i]:
+            k = "KGated" if (i, m) == ("Stream", "play_url") else \
+                "KBroadcast" if (i, m) in (("PushUpdater", "start"), ("PushUpdater", "stop")) else "KRelay"
+            t["rows"].append({"iface": i, "member": m, "mkind": kind, "kind": k, "target": m, "arg": None})
+    return t
 
 
 def exhaustive_histories(depth):
@@ -1070,14 +1125,15 @@ def exhaustive_histories(depth):
     return [h for h in out if len(h) == depth]
 
 
-async def replay_one(r, rows):
+async def replay_one(r, rows, verbose=True):
     """Re-run one replay dict against the implementation; returns (key, what) if the property fails."""
     quiet()
     if r.get("kind") == "history":
         ops = [tuple(o) for o in r["ops"]]
         res, states, probes = await drive_history(ops)
         v = judge_history(ops, res, probes)
-        print("history %s -> results %s, holders %s" % (ops, res, states[-1] if states else None))
+        if verbose:
+            print("history %s -> results %s, holders %s" % (ops, res, states[-1] if states else None))
         return (v[0], "history fails at op %d" % v[1]) if v else None
     if r.get("kind") == "route":
         order = r["connected_in_order"]
@@ -1087,8 +1143,9 @@ async def replay_one(r, rows):
         for o in obs:
             row = rows[o["row"]]
             impl = {p: (b[0] and b[1] and b[2]) for p, b in o["bits"].items()}
-            print("%s.%s connected=%s holder=%s -> executed_by=%s exception=%s" % (
-                o["iface"], o["member"], order, o["holder"], o["called"], o["exc"]))
+            if verbose:
+                print("%s.%s connected=%s holder=%s -> executed_by=%s exception=%s" % (
+                    o["iface"], o["member"], order, o["holder"], o["called"], o["exc"]))
             if o["wrong"]:
                 return ("C01:route:other-member-executed", str(o["wrong"]))
             v = judge_route(row, o["holder"], impl, o["gate"], o["regd"], o["called"], o["exc"])
@@ -1096,7 +1153,29 @@ async def replay_one(r, rows):
                 return v
         return None
     if r.get("kind") == "relay":
-        print("bare Relayer case (not replayable on the facade): %s" % r)
+        from pyatv.core.relayer import Relayer
+        rel = Relayer(iface_cls("Apps"), [P(p) for p in r["prios"]])
+        log = []
+        for p in r["regd"]:
+            b = r["bits"][p]
+            style = "falsy" if not b[0] else ("duck" if not b[1] else "sub")
+            rel.register(make_stub("Apps", p, ["app_list"] if b[2] else [], log, style), P(p))
+        for h in r["take"]:
+            rel.takeover(P(h))
+        try:
+            who, exc = rel.relay("app_list", priority=[P(p) for p in r["arg"]] if r["arg"] else None).__self__._proto, None
+        except Exception as ex:  # noqa
+            who, exc = None, type(ex).__name__
+        exp = None
+        for p in r["take"] + (r["arg"] or r["prios"]):
+            if p in r["bits"] and all(r["bits"][p]):
+                exp = p
+                break
+        if verbose:
+            print("Relayer(prios=%s) takeover=%s registered=%s -> %s %s (expected %s)" % (r["prios"], r["take"], r["bits"], who, exc, exp))
+        conforming = all(b[0] and b[1] for b in r["bits"].values())
+        if conforming and (exp != who or (exp is None and exc != "NotSupportedError")):
+            return ("C01:relayer:wrong-instance", "Relayer.relay returned %s (%s), expected %s" % (who, exc, exp))
         return None
     return None
 
@@ -1107,7 +1186,10 @@ def replay(ctx, path):
     if d.get("key") == "tie-broken":
         print("tie-broken replay: %s" % json.dumps(d.get("broken"))[:2000])
         return 1
-    t = vloop.run(collect_rows_only)
+    try:
+        t = vloop.run(collect_rows_only)
+    except Exception:  # noqa
+        t = fallback_tables()["rows"]
     v = vloop.run(replay_one, r, t)
     print("property-errors=%s" % (list(v) if v else []))
     return 1 if v else 0
